@@ -1817,3 +1817,29 @@ Lemma create_after_close_repaired :
   P_C18 sv_all keys_all (trace_of sv_all keys_all true witness_ops) = true /\
   clients (run_gen true witness_ops) = [] /\ mopen (run_gen true witness_ops) = [].
 Proof. vm_compute. auto. Qed.
+
+(* ---- remote subscribers: the references of the remote publisher ------------------ *)
+(* after the handler the remote publisher is open exactly when the subscriber was
+   created (the completion the model stores, is_ok), with exactly one reference:
+   the subscriber's *)
+Lemma remote_refs_handler : forall r,
+  refs_after (handler_refops true r) = if is_ok (rres_mres r) then Some 1 else None.
+Proof. destruct r; reflexivity. Qed.
+
+(* ... and the Close of that subscriber closes it: nothing stays open *)
+Lemma remote_refs_closed : forall r,
+  refs_after (handler_refops true r ++ sub_close_refops r) = None.
+Proof. destruct r; reflexivity. Qed.
+
+(* a failed request leaves nothing at any point after the handler *)
+Lemma remote_refs_failed : forall r, is_ok (rres_mres r) = false ->
+  refs_after (handler_refops true r) = None /\ sub_close_refops r = [].
+Proof. destruct r; simpl; intro H; try discriminate; split; reflexivity. Qed.
+
+(* giving the creator's reference back only after NewRemoteSubscriber succeeded is
+   not enough: the remote publisher of a request whose attach failed stays open
+   with one reference, no subscriber exists whose Close would release it *)
+Lemma remote_refs_release_late_refuted : exists r,
+  is_ok (rres_mres r) = false /\ sub_close_refops r = [] /\
+  refs_after (handler_refops false r ++ sub_close_refops r) = Some 1.
+Proof. exists RRSubFail. repeat split. Qed.
